@@ -39,6 +39,8 @@ import (
 	"verif/engine/vk"
 )
 
+var tStart = time.Now()
+
 var (
 	A, U = chainx.NewKey("c12-A"), chainx.NewKey("c12-U")
 	keys = []chainx.Key{A, U}
@@ -896,12 +898,46 @@ func main() {
 		f, _ := os.Create(pf)
 		pprof.StartCPUProfile(f)
 	}
-	if os.Getenv("C12_ONLYMUT") == "" {
-		r.ParFor(len(groups), func(i int) { groups[i].run() })
+	// one job list for all cores, longest jobs first: the two long part-2 sequences, the biggest deploy-history chains,
+	// the part-3 chains, the remaining deploy-history chains, the short part-2 chains
+	var jobs, tail []func()
+	timed := func(label string, f func()) func() {
+		if os.Getenv("C12_WTIME") == "" {
+			return f
+		}
+		return func() {
+			t0 := time.Now()
+			f()
+			fmt.Printf("job %s: start=%.0fs wall=%.1fs\n", label, t0.Sub(tStart).Seconds(), time.Since(t0).Seconds())
+		}
 	}
+	if d := os.Getenv("C12_WDEBUG"); d != "" {
+		wdebug(d)
+	}
+	var p1, p3 []func()
 	if os.Getenv("C12_NOMUT") == "" {
-		mutationPart()
+		if os.Getenv("C12_ONLYW") == "" {
+			mj := mutationJobs()
+			for i := range mj {
+				mj[i] = timed(fmt.Sprintf("part2:%d", i), mj[i])
+			}
+			jobs, tail = append(jobs, mj[:2]...), mj[2:]
+		}
+		if os.Getenv("C12_NOW") == "" {
+			p3 = writerPathJobs()
+		}
 	}
+	if os.Getenv("C12_ONLYMUT") == "" && os.Getenv("C12_ONLYW") == "" {
+		for _, g := range groups {
+			p1 = append(p1, timed(fmt.Sprintf("part1:%s/%s(%d histories)", g.label, g.cfg.name, len(g.jobs)), g.run))
+		}
+	}
+	// measured: the two part-2 sequences and the biggest deploy-history chains are the critical path
+	nFirst := min(8, len(p1))
+	jobs = append(append(append(jobs, p1[:nFirst]...), p3...), p1[nFirst:]...)
+	jobs = append(jobs, tail...)
+	r.ParFor(len(jobs), func(i int) { jobs[i]() })
+	flushWViolations()
 	if os.Getenv("C12_PROF") != "" {
 		pprof.StopCPUProfile()
 	}
@@ -913,8 +949,8 @@ func main() {
 		"registry = purpose-built realm at gno.land/r/sys/names exposing IsAuthorizedAddressForNamespace (the interface the keeper calls); the examples/ realm needs the whole govdao tree",
 		"private packages may be redeployed (by anyone when no registry is configured): the statement protects public entries only",
 	}
-	r.Finish(fmt.Sprintf("state graph of MsgAddPackage histories: <=%d accepted deployments over the 22-op alphabet on the colliding path (+ the same sequences inside one block), <=%d over the %d-op path-menu alphabet, <=%d over a 6-op reduced alphabet, the full %d-op product at the initial state; every model-rejected op of the alphabet delivered at every visited state; x3 registry configurations (quick: the no-registry-realm configuration only gets the colliding-path alphabet to depth 2, the full product runs under the enforcing configuration only); restart of 3 chains; + the /p/ mutation menu (25 statements x 5 forms, each first on a fresh /p/ package, then all in sequence both ways, + an escalation scenario); distinct = distinct (alphabet, config, model state) nodes + same-block sequences + mutation cases",
+	r.Finish(fmt.Sprintf("state graph of MsgAddPackage histories: <=%d accepted deployments over the 22-op alphabet on the colliding path (+ the same sequences inside one block), <=%d over the %d-op path-menu alphabet, <=%d over a 6-op reduced alphabet, the full %d-op product at the initial state; every model-rejected op of the alphabet delivered at every visited state; x3 registry configurations (quick: the no-registry-realm configuration only gets the colliding-path alphabet to depth 2, the full product runs under the enforcing configuration only); restart of 3 chains; + the /p/ mutation menu (25 statements x 5 forms, each first on a fresh /p/ package, then all in sequence both ways, + an escalation scenario); + part 3, writer paths into /p/ state while ANOTHER package is being added: importer (/r/, /p/) x 11 sites (init, helpers of init 1-2 frames, own method, second file, func literal, recover-wrapped, var initialiser as direct call expression / func literal / helper, init(cur realm)) x 15 entry forms (method, function, stored closure, method value/expression, 3 interface forms, defer, 2 callbacks, local copy, relays through a /p/ package (direct, nested) and a realm) x route inside /p/ (11 hop kinds: method, function, closure literal->function/method, deferred method/function, method value, interface, stored closure, method expression, recover-wrapped; 4 terminals: inline, closure literal, deferred closure, stored closure) x 5 sinks: every context x 9-case inner menu, 3 contexts x all routes of <=1 hop x terminals x sinks, all 2-hop routes, 3-hop routes over 3 hop kinds; the same entry forms through MsgCall/MsgRun; a no-write control per context; own-initialisation controls; distinct = distinct (alphabet, config, model state) nodes + same-block sequences + mutation cases + writer-path cases",
 		dCore, dWide, len(wide), dRed, len(full)),
 		true, map[string]any{"states": nStatesSeen.Load(), "transitions": nTx.Load(), "traces_validated_against_impl": nTx.Load(),
-			"observation_checks": nChecks.Load(), "chains": nChains.Load(), "histories": njobs, "depth": map[string]int{"core": dCore, "wide": dWide, "reduced": dRed}})
+			"observation_checks": nChecks.Load(), "observations": observations, "part3_add_attempts": nWAttempts.Load(), "part3_add_attempts_that_deployed": nWAccepted.Load(), "chains": nChains.Load(), "histories": njobs, "depth": map[string]int{"core": dCore, "wide": dWide, "reduced": dRed}})
 }
